@@ -13,3 +13,6 @@ pub mod sc;
 pub mod spec;
 
 pub use sc::Sc;
+
+#[global_allocator]
+static GLOBAL: engine::poison::PoisonAlloc = engine::poison::PoisonAlloc;
